@@ -19,11 +19,12 @@ pub struct Style {
     pub alt_values: bool, // other attribute values and other non-empty text
     pub text_last: bool,  // character data after the child elements instead of before them
     pub entity_text: bool, // text is a reference to an entity declared in the DOCTYPE's internal subset
+    pub name_text: u8,     // 0 off; 1 text = the parent's tag name; 2 text = the element's first attribute name (or its own name); 3 text = "same" everywhere
 }
 
 impl Default for Style {
     fn default() -> Self {
-        Style { short_empty: true, decl: false, doctype: false, comments: false, pi: false, swap_cdata: false, alt_values: false, text_last: false, entity_text: false }
+        Style { short_empty: true, decl: false, doctype: false, comments: false, pi: false, swap_cdata: false, alt_values: false, text_last: false, entity_text: false, name_text: 0 }
     }
 }
 
@@ -40,14 +41,14 @@ pub fn write_doc(root: &Node, st: &Style) -> String {
     if st.comments {
         s.push_str("<!-- lead -->");
     }
-    write_node(root, st, &mut s);
+    write_node(root, st, &mut s, "top");
     if st.comments {
         s.push_str("<!-- trail -->");
     }
     s
 }
 
-fn write_node(n: &Node, st: &Style, s: &mut String) {
+fn write_node(n: &Node, st: &Style, s: &mut String, parent: &str) {
     s.push('<');
     s.push_str(&n.name);
     for (i, a) in n.attrs.iter().enumerate() {
@@ -74,7 +75,8 @@ fn write_node(n: &Node, st: &Style, s: &mut String) {
         s.push_str("<!--c-->");
     }
     let t = if st.swap_cdata && n.text != 0 { 3 - n.text } else { n.text };
-    let body = if st.entity_text { "&co;" } else if st.alt_values { "something &amp; else" } else { "t" };
+    let nt: String = match st.name_text { 1 => parent.to_string(), 2 => n.attrs.first().cloned().unwrap_or_else(|| n.name.clone()), 3 => "same".to_string(), _ => String::new() };
+    let body = if st.name_text != 0 { nt.as_str() } else if st.entity_text { "&co;" } else if st.alt_values { "something &amp; else" } else { "t" };
     let mut txt = String::new();
     match t {
         1 => txt.push_str(body),
@@ -92,7 +94,7 @@ fn write_node(n: &Node, st: &Style, s: &mut String) {
         if st.pi {
             s.push_str("<?pi x?>");
         }
-        write_node(k, st, s);
+        write_node(k, st, s, &n.name);
     }
     if st.text_last {
         s.push_str(&txt);
